@@ -398,6 +398,29 @@ neutral("c01-takewhile-explicit-anext", ["C01", "C05", "C03", "C04", "C06", "C18
         "        async for item in async_iter:\n            if await predicate(item):\n                yield item\n            else:\n                break\n",
         "        while True:\n            try:\n                item = await anext(async_iter)\n            except StopAsyncIteration:\n                break\n            if not await predicate(item):\n                break\n            yield item\n")
 
+# release histories (R04.9): a failure class other than the three recorded ones (F13-F15) is a new violation
+mutant("c04-tee-last-child-leaves-source-open", "C04", "itertools.py",
+       "        if not peers and isinstance(iterator, ACloseable):\n            await iterator.aclose()",
+       "        if len(peers) == 1 and isinstance(iterator, ACloseable):\n            await iterator.aclose()", rule="R04.9")
+
+# fault cells (R06.10): a failing source / callable is swallowed, replaced, deferred or used again
+mutant("c06-takewhile-failing-predicate-ends-quietly", "C06", "itertools.py",
+       "            if await predicate(item):\n                yield item\n            else:\n                break\n",
+       "            try:\n                keep = await predicate(item)\n            except Exception:\n                break\n"
+       "            if keep:\n                yield item\n            else:\n                break\n", rule="R06.10")
+mutant("c06-reduce-wraps-failure", "C06", "functools.py",
+       "            value = await function(value, head)\n    return value",
+       "            try:\n                value = await function(value, head)\n            except Exception as exc:\n"
+       "                raise RuntimeError('reduction failed') from exc\n    return value", rule="R06.10")
+mutant("c06-reduce-retries-failed-call", "C06", "functools.py",
+       "            value = await function(value, head)\n    return value",
+       "            try:\n                value = await function(value, head)\n            except Exception:\n"
+       "                value = await function(value, head)\n    return value", rule="R06.10")
+mutant("c06-takewhile-asks-source-again-after-failure", "C06", "itertools.py",
+       "        async for item in async_iter:\n            if await predicate(item):\n                yield item\n            else:\n                break\n",
+       "        try:\n            async for item in async_iter:\n                if await predicate(item):\n                    yield item\n"
+       "                else:\n                    break\n        except Exception:\n            await anext(async_iter, None)\n            raise\n", rule="R06.10")
+
 mutant("c02-sum-operand-order", "C02", "builtins.py",
        "            total = total + item", "            total = item + total", rule="R02.8")
 mutant("c02-reduce-argument-order", "C02", "functools.py",
